@@ -28,6 +28,11 @@ def one_history(rng, nops, target_kinds=("ds", "ds", "ds", "grp"), spec_safe=Fal
         else:
             k, v = histgen.rand_attr_value(rng, big=big)
             ops.append({"op": "setattr", "path": tgt, "name": hx(nm), "kind": k, "val": v.hex()})
+        if rng.random() < 0.02:      # a value beyond the 64 KiB heap object limit: refused in dense storage (also on an EXISTING name: nothing of
+            # the half-done delete+insert may survive into the next successful call - seeded change C02-d), accepted nowhere
+            huge = rng.choice([66000, 70000, 9000 * 8])
+            ops.append({"op": "setattr", "path": tgt, "name": hx(rng.choice(names)), "kind": rng.choice(["str", "[]f64"]),
+                        "val": (bytes([66]) * (huge - huge % 8)).hex()})
         if rng.random() < 0.03:      # an attribute on the neighbour in between
             k, v = histgen.rand_attr_value(rng)
             ops.append({"op": "setattr", "path": "/e", "name": hx(rng.choice(names)), "kind": k, "val": v.hex()})
